@@ -32,15 +32,17 @@ type raCase struct {
 	Proto string `json:"proto"`
 	Ops   []raOp `json:"ops"`
 	Kind  string `json:"kind"`
+	// Foreign: real plugins are started by a launcher process, so the clients of this history are never their parent
+	Foreign bool `json:"foreign,omitempty"`
 }
 
 func init() { families["reattach"] = runReattach }
 
 func genReattach(o opts) []raCase {
 	r := hk.Rng(o.seed + 103)
-	n := 24
+	n := 26
 	if o.tier == "thorough" {
-		n = 300
+		n = 302
 	}
 	var cs []raCase
 	for _, pr := range []string{"netrpc", "grpc"} {
@@ -48,10 +50,11 @@ func genReattach(o opts) []raCase {
 			raCase{Proto: pr, Kind: "directed-basic", Ops: []raOp{{0, 0, 0}, {2, 0, 7}, {1, 0, 0}, {3, 1, 0}, {1, 1, 0}, {3, 2, 0}, {4, 2, 0}, {7, 0, 0}, {1, 0, 0}}},
 			raCase{Proto: pr, Kind: "directed-test-mode", Ops: []raOp{{0, 1, 0}, {1, 0, 0}, {2, 1, 5}, {1, 1, 0}, {4, 2, 0}, {7, 0, 0}, {3, 0, 0}, {6, 0, 0}, {7, 0, 0}, {1, 0, 0}}},
 			raCase{Proto: pr, Kind: "directed-die", Ops: []raOp{{0, 0, 0}, {1, 0, 0}, {5, 0, 0}, {7, 0, 0}, {1, 0, 0}, {3, 1, 0}}},
+			raCase{Proto: pr, Kind: "directed-foreign", Foreign: true, Ops: []raOp{{0, 0, 0}, {2, 0, 7}, {1, 0, 0}, {3, 1, 0}, {7, 0, 0}, {4, 1, 0}, {7, 0, 0}, {1, 0, 0}}},
 		)
 	}
 	for len(cs) < n {
-		c := raCase{Proto: hk.Pick(r, []string{"netrpc", "grpc"}), Kind: "random"}
+		c := raCase{Proto: hk.Pick(r, []string{"netrpc", "grpc"}), Kind: "random", Foreign: r.Intn(3) == 0}
 		nin, ncl := 0, 0
 		test := []bool{}
 		for k := 2 + r.Intn(7); k > 0; k-- {
@@ -100,6 +103,12 @@ type raInst struct {
 func runOneReattach(c raCase) (sx.V, sx.V) {
 	var insts []*raInst
 	var clients []*plugin.Client
+	var foreignCleanups []func()
+	defer func() {
+		for _, f := range foreignCleanups {
+			f()
+		}
+	}()
 	callers := map[int]vp.Caller{}
 	in, obs := sx.L{}, sx.L{}
 	hs := plugin.HandshakeConfig{ProtocolVersion: 1, MagicCookieKey: vpCookieKey, MagicCookieValue: vpCookieVal}
@@ -183,6 +192,24 @@ func runOneReattach(c raCase) (sx.V, sx.V) {
 						out = 1
 					}
 				}
+			} else if c.Foreign {
+				pid, na, proto, cleanup, err := startForeignPlugin(c.Proto, "exit", filepath.Join(os.TempDir(), fmt.Sprintf("ra-marker-%d", len(insts))))
+				cl := plugin.NewClient(&plugin.ClientConfig{HandshakeConfig: hs, Plugins: plugs(), Logger: hk.QuietLogger(),
+					Reattach: &plugin.ReattachConfig{Protocol: plugin.Protocol(proto), ProtocolVersion: 1, Addr: na, Pid: pid}})
+				clients = append(clients, cl)
+				if err == nil {
+					foreignCleanups = append(foreignCleanups, cleanup)
+					done := make(chan error, 1)
+					go func() { _, e := cl.Client(); done <- e }()
+					select {
+					case e := <-done:
+						if e == nil {
+							out = 1
+						}
+					case <-time.After(10 * time.Second):
+					}
+				}
+				insts = append(insts, &raInst{pid: pid, owner: cl})
 			} else {
 				cl := plugin.NewClient(vpClientConfig(vpOpts{Proto: c.Proto}))
 				clients = append(clients, cl)
